@@ -402,6 +402,9 @@ func checkConv(p *Prog, r *Report, pkg, prop string) {
 		r.rule("R05.n", "The iptables normaliser (linux.normalizeIPTables) decides which spellings of a rule are the same rule, so what it equates is reported as no change: its deletions, stores and string operations keep their audited conditions (rows of tables/guards.tsv, compared by R-G) and it works with exactly the audited constants (suffixes it cuts, values it substitutes; tables/normaliser_consts.tsv).")
 		ruleNormaliserConsts(p, r, "R05.n", prop)
 	}
+	if pkg == "nsx" {
+		ruleOrderingAudited(p, r, "R-ORD", prop, map[string]bool{pkg: true}, 2)
+	}
 	if pkg == "panos" || pkg == "nsx" {
 		ruleRewriteDiscipline(p, r, "R-FLAG", prop, map[string]bool{pkg: true}, map[string]int{"panos": 5, "nsx": 2}[pkg])
 		ruleComparatorsSymmetric(p, r, map[string]bool{pkg: true}, map[string]int{"panos": 9, "nsx": 1}[pkg])
